@@ -88,6 +88,9 @@ def run(ctx):
         'integer field, one tag, <= 3 series x <= 6 points, two shards',
         'the order of raw rows of different series at the same timestamp is not defined: compared as multisets, and LIMIT/OFFSET '
         'are not generated when they could cut through such a group',
+        'first()/last() over points of different series that share the selected (earliest/latest) timestamp with different values is '
+        'not defined by the language (without GROUP BY time the engine takes the first point of an unordered merge with LIMIT 1): such '
+        'queries are generated only with GROUP BY host; min()/max() are defined on ties (earliest time among equal values)',
         'GROUP BY time is generated only with both time bounds (an open upper bound is now()); OFFSET only together with LIMIT and '
         'SOFFSET only together with SLIMIT (both requirements are documented; without them results are documented as inconsistent)',
         'SLIMIT/SOFFSET count the series of the measurement that satisfy the tag predicate (ascending), with or without rows',
